@@ -13,13 +13,14 @@ import (
 
 // Abstract key spaces shared by both drivers (frozen six-line table; each
 // entry confirmed by reading both drivers):
-//   memory field   badger prefix    space
-//   nodes          vip:node:        node
-//   memNode.peers  vip:peers:       peers
-//   accounts       vip:account:     account
-//   balances       vip:balance:     balance
-//   trials         vip:trial:       trial
-//   nonces         vip:nonce:       nonce
+//
+//	memory field   badger prefix    space
+//	nodes          vip:node:        node
+//	memNode.peers  vip:peers:       peers
+//	accounts       vip:account:     account
+//	balances       vip:balance:     balance
+//	trials         vip:trial:       trial
+//	nonces         vip:nonce:       nonce
 var memFieldSpace = map[string]string{
 	"nodes": "node", "peers": "peers", "accounts": "account", "balances": "balance", "trials": "trial", "nonces": "nonce",
 }
